@@ -196,11 +196,12 @@ def run_backend(backend: str) -> dict[str, Any]:
                         queue.extend_lock(m, _td(seconds=5))
                         queue.reschedule(m, _td(seconds=0))
                         advance(1000)
-                        m = queue.poll_one()
-                        queue.move_to_dlq(m.message_id, "test")
+                        m2 = queue.poll_one()
+                        queue.move_to_dlq((m2 or m).message_id, "test")
                         ent = queue.list_dlq()
-                        trace.append(["dlq_size", queue.dlq_size(), queue.size(), len(ent)])
-                        queue.replay_dlq(ent[0]["id"])
+                        trace.append(["dlq_size", queue.dlq_size(), queue.size(), len(ent), m2 is not None])
+                        if ent:
+                            queue.replay_dlq(ent[0]["id"])
                         trace.append(["pending?", queue.has_pending_message_for_task("nope"), store.is_message_processed("1"), len(store.get_processed_message_ids(limit=5) or [])])
                 try:
                     proc.process_one()
